@@ -45,17 +45,38 @@ def check_monotone(idx: Index, rep: Report) -> None:
     lat = idx.cls(LA, "Liveness")
     ml = lat.method("mark_live")
     mt = lat.method("meet")
-    body = [unparse(s) for s in ml.node.body]  # type: ignore[union-attr]
-    if body == ["if self.is_live:\n    return ChangeResult.NO_CHANGE", "self.is_live = True", "return ChangeResult.CHANGE"]:
+    from ..paths import outcomes
+
+    rows = outcomes(ml.node, ["self.is_live"])  # type: ignore[union-attr]
+    bad_ml = []
+    for row in rows:
+        live = row["facts"]["self.is_live"]
+        sets = "self.is_live = True" in row["effects"]
+        if live is True and not (row["value"] == "ChangeResult.NO_CHANGE"):
+            bad_ml.append(f"already live: returns {row['value']}")
+        elif live is False and not (sets and row["value"] == "ChangeResult.CHANGE"):
+            bad_ml.append(f"not live yet: sets is_live: {sets}, returns {row['value']}")
+        elif live is None:
+            bad_ml.append("a path does not depend on self.is_live")
+    if rows and not bad_ml and {row["facts"]["self.is_live"] for row in rows} == {True, False}:
         r.ok(ml.fq, f"{ml.loc} mark_live reports CHANGE exactly when the value becomes live")  # type: ignore[union-attr]
     else:
-        r.fail(ml.fq, Finding("C25.R1", ml.fq, "mark-live", "mark_live must set is_live and return CHANGE iff it was not live", ml.loc))  # type: ignore[union-attr]
-    body = [unparse(s) for s in mt.node.body]  # type: ignore[union-attr]
+        r.fail(ml.fq, Finding("C25.R1", ml.fq, "mark-live", "mark_live must set is_live and return CHANGE iff it was not live: " + "; ".join(bad_ml[:2]), ml.loc))  # type: ignore[union-attr]
     o = mt.node.args.args[1].arg  # type: ignore[union-attr]
-    if body == [f"if {o}.is_live:\n    return self.mark_live()", "return ChangeResult.NO_CHANGE"]:
+    rows = outcomes(mt.node, [f"{o}.is_live"])  # type: ignore[union-attr]
+    bad_mt = []
+    for row in rows:
+        ol = row["facts"][f"{o}.is_live"]
+        if ol is True and row["value"] != "self.mark_live()":
+            bad_mt.append(f"other live: returns {row['value']}")
+        elif ol is False and row["value"] != "ChangeResult.NO_CHANGE":
+            bad_mt.append(f"other dead: returns {row['value']}")
+        elif ol is None:
+            bad_mt.append("a path does not depend on other.is_live")
+    if rows and not bad_mt and {row["facts"][f"{o}.is_live"] for row in rows} == {True, False}:
         r.ok(mt.fq, f"{mt.loc} meet = OR towards live")  # type: ignore[union-attr]
     else:
-        r.fail(mt.fq, Finding("C25.R1", mt.fq, "meet", "meet(other) must be `mark_live() if other.is_live else NO_CHANGE`", mt.loc))  # type: ignore[union-attr]
+        r.fail(mt.fq, Finding("C25.R1", mt.fq, "meet", "meet(other) must be `mark_live() if other.is_live else NO_CHANGE`: " + "; ".join(bad_mt[:2]), mt.loc))  # type: ignore[union-attr]
     init = lat.method("__init__")
     if "self.is_live = False" in [unparse(s) for s in init.node.body]:  # type: ignore[union-attr]
         r.ok(init.fq, "lattices start dead (bottom)")  # type: ignore[union-attr]
@@ -163,10 +184,29 @@ def check_solver(idx: Index, rep: Report) -> None:
         return f, [unparse(s) for s in f.node.body if not (isinstance(s, ast.Expr) and isinstance(s.value, ast.Constant))]
 
     f, b = body(DF, "DataFlowSolver.propagate_if_changed")
-    if b[-1:] == ["if changed == ChangeResult.CHANGE:\n    state.on_update(self)"]:
+    from ..paths import outcomes as _oc
+
+    chg = f.node.args.args[2].arg
+    st_ = f.node.args.args[1].arg
+    A_RUN, A_CHG = "self._is_running", f"{chg} == ChangeResult.CHANGE"
+    bad_p = []
+    seen_upd = False
+    for row in _oc(f.node, [A_RUN, A_CHG, f"{chg} is ChangeResult.CHANGE"]):
+        changed = row["facts"][A_CHG] if row["facts"][A_CHG] is not None else row["facts"][f"{chg} is ChangeResult.CHANGE"]
+        upd = f"{st_}.on_update(self)" in row["effects"]
+        if row["end"] == "raise":
+            if row["facts"][A_RUN] is not False:
+                bad_p.append("raises although the solver may be running")
+            continue
+        if changed is True and not upd:
+            bad_p.append("a CHANGE is not forwarded to state.on_update")
+        if changed is not True and upd:
+            bad_p.append("on_update is called without a CHANGE")
+        seen_upd = seen_upd or upd
+    if not bad_p and seen_upd:
         r.ok(f.fq, f"{f.loc} CHANGE -> state.on_update(solver)")
     else:
-        r.fail(f.fq, Finding("C25.R4", f.fq, "propagate", "propagate_if_changed must call state.on_update(self) exactly when changed is CHANGE", f.loc))
+        r.fail(f.fq, Finding("C25.R4", f.fq, "propagate", "propagate_if_changed must call state.on_update(self) exactly when changed is CHANGE: " + "; ".join(bad_p[:2] or ["on_update never called"]), f.loc))
     f, b = body(DF, "AnalysisState.on_update")
     from ..paths import enum_paths as _ep2, loops_of as _lo
 
@@ -276,12 +316,22 @@ def check_transfer(idx: Index, rep: Report) -> None:
     else:
         r.ok(f.fq + ":early-exit", f"{f.loc} the results loop exits early only under `{res}.is_live`")
     g = idx.func(LA, "LivenessAnalysis.set_to_exit_state")
-    t = [unparse(s) for s in g.node.body if not (isinstance(s, ast.Expr) and isinstance(s.value, ast.Constant))]
     l = g.node.args.args[1].arg
-    if t == [f"if {l}.is_live:\n    return", f"{l}.is_live = True", f"self.propagate_if_changed({l}, ChangeResult.CHANGE)"]:
+    from ..paths import outcomes as _oc5
+
+    bad_x = []
+    cases_x = set()
+    for row in _oc5(g.node, [f"{l}.is_live"]):
+        live = row["facts"][f"{l}.is_live"]
+        marks = f"{l}.is_live = True" in row["effects"] or f"{l}.mark_live()" in " ".join(row["effects"])
+        props = any(e_.startswith(f"self.propagate_if_changed({l}, ") for e_ in row["effects"])
+        cases_x.add(live)
+        if live is not True and not (marks and props):
+            bad_x.append(f"a lattice that is not live yet: marked live: {marks}, change propagated: {props}")
+    if not bad_x and (False in cases_x or None in cases_x):
         r.ok(g.fq, f"{g.loc} boundary values are marked live and propagated")
     else:
-        r.fail(g.fq, Finding("C25.R5", g.fq, "exit-state", "set_to_exit_state must mark the lattice live and propagate the change", g.loc))
+        r.fail(g.fq, Finding("C25.R5", g.fq, "exit-state", "set_to_exit_state must mark the lattice live and propagate the change: " + "; ".join(bad_x[:2]), g.loc))
 
 
 def check(idx: Index, rep: Report, tier: str) -> str:
